@@ -576,6 +576,7 @@ class VLE(Equilibrium, phases='lg'):
         V = (S - S_bubble)/(S_dew - S_bubble)
         vapor_mol[index] = mol*V
         liquid_mol[index] = mol - vapor_mol[index]
+        self._correct_V_at_S(S, S_bubble, S_dew, V, T, P)
         
     def _set_TS_chemical(self, T, S):
         index = self._index
@@ -611,6 +612,27 @@ class VLE(Equilibrium, phases='lg'):
         V = (S - S_bubble)/(S_dew - S_bubble)
         vapor_mol[index] = mol*V
         liquid_mol[index] = mol - vapor_mol[index]
+        self._correct_V_at_S(S, S_bubble, S_dew, V, T, P)
+        
+    def _correct_V_at_S(self, S, S_bubble, S_dew, V, T, P):
+        # Entropy is not linear in the vapor fraction when other species 
+        # (e.g., a non-volatile solute) share a phase with the chemical 
+        # (entropy of mixing), so the lever rule is only a first guess.
+        mol = self._mol_vle
+        index = self._index
+        vapor_mol = self._vapor_mol
+        liquid_mol = self._liquid_mol
+        xS = self._thermo.mixture.xS
+        phase_data = self._phase_data
+        def f(V):
+            vapor_mol[index] = mol*V
+            liquid_mol[index] = mol - vapor_mol[index]
+            return xS(phase_data, T, P) - S
+        ytol = 1e-9 * (S_dew - S_bubble)
+        if abs(f(V)) <= ytol: return
+        V = flx.IQ_interpolation(f, 0., 1., S_bubble - S, S_dew - S, V, 
+                                 1e-14, ytol, checkiter=False, checkbounds=False)
+        f(V)
         
     def _lever_rule(self, x, y):
         split_frac = (self._z[0]-x[0])/(y[0]-x[0])
